@@ -315,6 +315,11 @@ def relative_cases(draw):
     B = np.array([[TR.unit(draw) for _ in range(ncol)] for _ in range(6)])
     s = draw(S.log_uniform(1e-8, 1.0))
     J = (B @ B.T) * s
+    if draw(st.integers(0, 4)) == 0:
+        # structured: both stations with the same tied horizontal block at a pole-free cardinal position, no cross covariance
+        T3 = np.array(draw(tie_matrices()))
+        return {"lat": draw(st.sampled_from([0.0, 90.0, -90.0, 45.0])), "lon": draw(st.sampled_from([0.0, 90.0, 180.0, -90.0])),
+                "var1": T3.tolist(), "var2": (T3 * draw(st.sampled_from([0.0, 1.0, 2.0]))).tolist(), "cov12": [[0.0] * 3] * 3}
     return {"lat": draw(lat_s), "lon": draw(lon_s), "var1": J[:3, :3].tolist(), "var2": J[3:, 3:].tolist(), "cov12": J[:3, 3:].tolist()}
 
 
@@ -346,7 +351,27 @@ frame_cases = st.fixed_dictionaries({"lat": S.whole_sometimes(lat_s), "lon": S.w
 vcv_cases = st.fixed_dictionaries({"lat": lat_s, "lon": lon_s, "vcv": psd_cond()})
 col_cases = st.fixed_dictionaries({"lat": lat_s, "lon": lon_s, "col": st.lists(st.one_of(S.floats(0.0, 1.0), S.log_uniform(1e-10, 10.0)),
                                                                                min_size=3, max_size=3)})
-ell_cases = st.fixed_dictionaries({"vcv": psd_cond()})
+@st.composite
+def tie_matrices(draw):
+    """Horizontal blocks with special structure: equal variances with a covariance of either sign, zero covariance with either
+    ordering of the variances, rank-1 along a cardinal / diagonal direction."""
+    a = draw(st.sampled_from([1.0, 0.25, 2.5e-5, 4.0])) * draw(st.sampled_from([1.0, 1e-4, 1e-8]))
+    kind = draw(st.sampled_from(["tie", "tie", "diag", "rank1"]))
+    if kind == "tie":
+        c = a * draw(st.sampled_from([-1.0, -0.5, -0.25, 0.25, 0.5, 1.0, -0.999, 0.0]))
+        H = [[a, c], [c, a]]
+    elif kind == "diag":
+        b = a * draw(st.sampled_from([0.0, 0.5, 1.0, 2.0, 4.0]))
+        H = [[a, 0.0], [0.0, b]]
+    else:
+        t = draw(st.sampled_from([0.0, 45.0, 90.0, 135.0, 30.0]))
+        s, c = math.sin(math.radians(t)), math.cos(math.radians(t))
+        H = [[a * s * s, a * s * c], [a * s * c, a * c * c]]
+    u = a * draw(st.sampled_from([0.0, 1.0, 3.0]))
+    return [[H[0][0], H[0][1], 0.0], [H[1][0], H[1][1], 0.0], [0.0, 0.0, u]]
+
+
+ell_cases = st.fixed_dictionaries({"vcv": st.one_of(psd_cond(), psd_cond(), tie_matrices())})
 
 SUBCHECKS = [
     SubCheck("local_frame", check_frame, strategy=frame_cases, nontrivial=_nt_rot, classes=_cls, quick=3000, thorough=200000,
